@@ -328,7 +328,11 @@ impl<S: Storage> Replica<S> {
     #[deprecated(since = "0.7.0", note = "please use TaskData instead")]
     pub async fn import_task_with_uuid(&mut self, uuid: Uuid) -> Result<Task> {
         let mut ops = self.make_operations();
-        TaskData::create(uuid, &mut ops);
+        // Creating a task that already exists is an invalid operation: it does nothing here, but
+        // on another replica it can cancel a concurrent deletion of the task.
+        if self.get_task_data(uuid).await?.is_none() {
+            TaskData::create(uuid, &mut ops);
+        }
         self.commit_operations(ops).await?;
         Ok(self
             .get_task(uuid)
